@@ -13,6 +13,17 @@ _T = [
     "C11_attach_exposes_layer", "C11_empty_view_is_emptiness", "C11_empties_readout_agrees",
     "C11_cells_exact", "C11_select_exact", "C11_select_filters_only", "C11_select_one_extreme",
     "C11_select_list_is_mask", "C11_only_empty_is_actual_emptiness",
+    "C11_reserved_names_are_cell_class_attributes", "C11_cell_protocol_names_reserved",
+    "C11_builtin_empty_is_created_layer", "C11_layer_never_shadows_cell_attribute",
+    "C11_assignment_cast_value", "C11_typed_cell_write_one_value", "C11_typed_layer_write_one_value",
+    "C11_set_cells_typed", "C11_modify_promotes_dtype", "C11_ufunc_result_types", "C11_modify_ufunc_typed",
+    "C11_dtype_changes_only_by_modify", "C11_modify_cell_typed", "C11_from_data_copies",
+    "C11_within_radius_symmetric", "C11_neighborhood_mask_exact", "C11_select_within_saved_mask",
+    "C11_shared_layer_second_grid", "C11_set_cells_array_pointwise",
+    "C11_create_typed_default", "C11_new_layer_typed_default",
+    "C11_layer_select_exact", "C11_layer_select_reads_cell_values", "C11_aggregate_exact",
+    "C11_cast_rules_match_numpy", "C11_ufunc_types_match_numpy", "C11_cast_values_match_numpy",
+    "C11_grid_attribute_is_layer", "C11_grid_attribute_assignment_refused", "C11_grid_attribute_never_replaces_layer",
     "C18_layers_add_reject_unchanged", "C18_layers_create_reject_unchanged", "C18_layers_add_rejects_exactly",
     "C18_layers_step_reject_unchanged", "C18_layers_rejected_calls_invisible",
 ]
@@ -20,16 +31,30 @@ THEOREMS = ["Mesa.Layers." + t for t in _T]
 COUNTS = {"quick": 6000, "thorough": 150000}
 TRUSTED = [
     "numpy: np.copyto / np.where / np.vectorize / ufuncs / np.logical_and / masked max,min / np.where->zip apply the "
-    "element-wise function point-wise, in row-major order, without changing dtype on the values used (bool 0/1, small ints, "
-    "floats that are multiples of 1/4: exact in binary64); the model is untyped Int",
+    "element-wise function point-wise, in row-major order, on the values used (bool 0/1, small ints, floats that are "
+    "multiples of 1/4: exact in binary64); entries are Ints in the encoding of the array's dtype",
+    "numpy's casts and result types are *modelled* (castTo = assignment cast, sameKind = np.copyto's rule, UOp.result / "
+    "DType.join = result type of ufunc(array, Python scalar) and of np.where among bool_/int64/float64); the rules "
+    "(every pair of types, every ufunc of the op language) and the values on a sample grid are probed from the running "
+    "numpy into Gen/NumpyTables.lean on every check (~100 lines of probing code in harness/layers_common.py) and the "
+    "model is proved equal to these tables; beyond the grid they are compared with numpy through typed writes, typed "
+    "constructor defaults, typed set_cells / modify_cells and dtype read-outs of the generated scenarios; other dtypes "
+    "(int32, float32, uint8, object), NaN/inf, integer overflow, np.vectorize's choice of the output type from the "
+    "*first* result when a Python function returns values of different types are not modelled",
     "numpy arrays are objects with identity (the model's heap): `a[...] = v` and np.copyto mutate, np.where allocates",
     "Python attribute lookup: a data descriptor on the class wins over the instance dict (PropertyDescriptor), hasattr() "
-    "for the clash check; the model's list of Cell attribute names is tied only through the names the generator uses "
-    "(agents, coordinate, capacity, is_empty, _agents, neighborhood, empty, a, b, c)",
-    "occupancy is modelled minimally (who is in which cell); neighbourhoods, get_neighborhood_mask, random cell "
-    "selection, copy/pickle of grids with layers (C19) are not modelled here",
-    "layers shared between two grids, `layer.data = array` on legacy layers, unary ufuncs called with an out-array, "
-    "user-written masks of the wrong shape (numpy broadcasting) are outside the op language",
+    "for the clash check; the model's list of Cell attribute names is generated (Gen/LayersTables.lean: AST of class Cell "
+    "and of the dynamic GridCell class dict, ~100 lines of `ast` code in harness/layers_common.py, plus dir() of a bare "
+    "Python class) and proved equal to dir(grid.cell_klass) of the running code on every check; the generator draws "
+    "clashing names from that table",
+    "occupancy is modelled minimally (who is in which cell); get_neighborhood_mask is modelled as the metric ball "
+    "(Moore: every axis distance <= r, von Neumann: their sum <= r, shorter way round on a torus) and compared with the "
+    "running code — the neighbourhood machinery itself (connections, recursion, caches, hex grids) is C07/C09; random "
+    "cell selection, copy/pickle of grids with layers (C19) are not modelled here",
+    "a second grid is modelled only as far as its cells see a shared layer (cset2/cget2 build it, add the layer, use one "
+    "cell); set_cells with an array value only for arrays of the layer's shape (another shape is answered by the harness: "
+    "numpy would broadcast or raise); unary ufuncs called with an out-array, user-written masks of the wrong shape, "
+    "from_data of an empty array beyond its IndexError are outside the op language",
 ]
 ASSUMPTIONS = [
     "protocol preconditions answered by the harness without calling mesa (mirrored by the model): placing a placed agent, "
@@ -37,21 +62,176 @@ ASSUMPTIONS = [
     "cell-attribute access to names of the Cell class, unknown ids",
     "the emptiness theorems and the oracle's emptiness clause assume the *user* does not overwrite, re-point, alias or "
     "remove the built-in `empty` layer (Op.safe); such histories are still generated and compared with the model",
-    "dtype-respecting values: bools into bool layers, ints into int layers, multiples of 1/4 into float layers; "
-    "logical ops on bool layers, arithmetic on numeric layers; magnitudes stay far below 2^53; a user-made layer "
-    "called `empty` (after removing the built-in one) is bool or int, because the grid writes raw True/False into it",
+    "values: Python bools, small ints and multiples of 1/4 of any type into layers of any dtype (numpy casts them; the "
+    "model says how); untyped operands of modify_cells are of the layer's own dtype (logical ops on bool layers, "
+    "arithmetic on numeric layers), typed operands of any type with + - * max min and or xor (* only with integral "
+    "operands, Python-function form only for operators whose result type does not depend on the value); magnitudes stay "
+    "far below 2^53; a user-made layer called `empty` (after removing the built-in one) is bool or int and is not "
+    "written with foreign-typed scalars, because the grid itself writes raw True/False into it",
+    "grid.<name>: layer names of the scenarios are not attributes of the Grid object itself (a layer called `torus` "
+    "would be hidden by that attribute; the model's grid starts without own attributes); `gset` assigns a plain object, "
+    "never `empty` while that name is free; the emptiness read-out takes the layer from the grid's dict, `dumpn` reads "
+    "the attribute path (HasPropertyLayers.__getattr__)",
 ]
 RULE = ("random scenarios over the three grid families (new cell spaces: Moore/VonNeumann/Hex, 1-3 dimensions, sizes 1-4, "
         "capacity None/1/2, torus or not; legacy SingleGrid/MultiGrid up to 4x4): 1-3 initial layers of dtype bool/int/float, "
         "then 8-35 ops from {create / free-standing layer (well- or mis-shaped) / attach / detach, single-cell writes and "
         "reads through the layer and through the cell attribute, set_cells and modify_cells with and without condition, "
-        "ufunc and Python-function operations, legacy modify_cell, references to layer.data read and written before/after "
-        "bulk ops, agent place/move/remove, emptiness read-outs, layer.select_cells, aggregate, grid.select_cells over all "
+        "ufunc and Python-function operations, ~30% of all written values and modify operands being Python scalars of an "
+        "arbitrary type (bool / int / float incl. non-integral floats: casts, refused casts, dtype promotion), dtype "
+        "read-outs, layer names drawn from the generated table of cell-class attributes, legacy modify_cell (also typed), "
+        "PropertyLayer.from_data of a held array, get_neighborhood_mask (radius 0-3, centre or not, Moore / von Neumann, "
+        "torus or not, 1-3 dimensions) kept and combined with the other filters of later selections, set_cells / set_property / "
+        "layer.data = <held array> with and without condition, reads and writes through the cells of a second grid the layer "
+        "is added to, numeric layers lifted to magnitude 10^7 (distinct values become near ties for the extreme values), references to layer.data read and written before/after "
+        "bulk ops, agent place/move/remove, emptiness read-outs, layer.select_cells, aggregate, assignments to and reads of grid.<name>, grid.select_cells over all "
         "16 combinations of {conditions, masks (literal, saved earlier mask-form results), only_empty, extreme values "
         "(1-2 entries, ties frequent)}}, every 8th scenario from the rejecting-call generator; each scenario ends with a full "
-        "read-out. non-trivial = at least two successful state-changing ops and one read through a view; distinct = distinct "
+        "read-out; 9 hand-written probes (near-tie extremes, positional array set, dtype tour, copy / second grid / "
+        "neighbourhood mask, typed defaults with the layer's own select_cells / aggregate, grid attribute) run first. non-trivial = at least two successful state-changing ops and one read through a view; distinct = distinct "
         "op-line sequences (sha1)")
 HEADER_LINES = 1
+
+
+_PROBES = {
+    # distinct values that are near ties at magnitude 10^7: the extreme is one cell, not all of them
+    "near-tie-extremes-legacy": """scenario single 2x2 0 - 0
+create a int 0
+lset 0 0.0 3
+lset 0 1.1 4
+modify 0 ufunc add 10000000 -
+select oe=0 conds=- ext=a:hi masks=- save=-
+select oe=0 conds=- ext=a:lo masks=- save=-
+create b float 0
+lset 1 0.1 1
+modify 1 ufunc add 40000000 -
+select oe=1 conds=- ext=b:hi masks=- save=-
+select oe=0 conds=a:ge:10000003 ext=b:lo masks=- save=-""",
+    "near-tie-extremes-new": """scenario new 2x3 0 moore 1
+create a int 0
+cset a 0.2 1
+cset a 1.0 2
+modify 1 fn add 10000000 -
+select oe=0 conds=- ext=a:hi masks=- save=-
+select oe=0 conds=- ext=a:lo masks=- save=-""",
+    # conditional set_cells with an array value is positional (value[coordinate], not value.flat[k])
+    "array-set-positional": """scenario new 1x3 0 moore 0
+create a int 1
+create b float 0
+lset 1 0.0 5
+lset 1 0.2 7
+lset 2 0.1 4
+grab 0 1
+setfrom 2 0 eq:0
+dump 2
+cget b 0.2
+grab 1 2
+setfrom 1 1 -
+setfrom 1 0 gt:5
+dump 1""",
+    "array-set-positional-legacy": """scenario multi 2x2 0 - 0
+create a int 1
+create b int 0
+lset 0 0.0 5
+lset 0 1.1 7
+lset 1 0.1 4
+grab 0 0
+setfrom 1 0 eq:0
+dump 1""",
+    # casts on writes, refused casts, promotion by modify_cells; the cell attribute follows the re-pointed layer
+    "dtype-tour": """scenario new 2x2 0 vonneumann 0
+create a int 3
+cset a 0.0 f:11
+lget 1 0.0
+cset a 0.1 f:-11
+cget a 0.1
+setcells 1 f:8 -
+setcells 1 b:1 gt:2
+dtype 1
+grab 0 1
+modify 1 ufunc add f:2 eq:1
+dtype 1
+dump 1
+hdump 0
+cset a 0.0 f:11
+lget 1 0.0
+hget 0 0.0
+modify 0 ufunc sub b:1 -
+cset a 1.1 b:1
+modify 1 ufunc and i:0 gt:5
+dump 1
+dtype 1""",
+    # from_data copies; the same layer on a second grid; neighbourhood mask feeding a selection
+    "copy-second-grid-nbmask": """scenario new 3x3 0 vonneumann 1
+create a float 3
+grab 0 1
+fromdata b 0
+hset 0 0.1 9
+dump 2
+dtype 2
+attach 2
+cget b 0.1
+cset2 1 1.1 f:-6
+cget a 1.1
+cget2 1 1.1
+cget2 0 0.0
+lset 1 1.1 36
+lset 1 0.1 20
+lset 1 2.0 20
+nbmask 0 0.0 0 1
+select oe=0 conds=- ext=a:hi masks=s0 save=-
+nbmask 1 0.0 1 0
+nbmask 1 3.0 1 1""",
+    # defaults of another Python type are cast by np.full (2.75 -> 2, -0.5 -> True, True -> 1.0); the layer's own
+    # select_cells / aggregate read the current values
+    "typed-defaults-layer-select-aggregate": """scenario new 1x3 0 moore 0
+create a int f:11
+cget a 0.1
+lget 1 0.2
+dtype 1
+create b bool f:-2
+cget b 0.0
+create c float b:1
+dump 3
+new d 1x3 int f:-11
+attach 4
+cget d 0.0
+lset 1 0.1 5
+lsel 1 gt:2
+agg 1 sum
+agg 1 max
+agg 1 min
+agg 2 sum""",
+    # grid.<name>: the attached layer; assignment refused while attached; an earlier attribute shadows it (code's caveat)
+    "grid-attribute": """scenario new 1x2 0 moore 0
+gset a
+create a int 3
+dumpn a
+cget a 0.1
+create b int 4
+gset b
+dumpn b
+detach b
+gset b
+gset empty
+dumpn empty
+dumpn zz""",
+    "typed-defaults-legacy": """scenario multi 2x2 0 - 0
+create a int f:11
+cget a 0.1
+create b bool i:3
+dump 1
+dtype 1
+lset 0 1.0 -1
+agg 0 sum
+agg 0 min
+lsel 0 lt:2""",
+}
+
+
+def builtin_corpus():
+    """hand-written probes of the extended coverage (run first, like the corpus): seed-independent"""
+    return [core.Scenario(text.split("\n"), {"probe": name}) for name, text in _PROBES.items()]
 
 
 def generate(rng, tier, count):
@@ -66,6 +246,7 @@ def generate_rejecting(rng, tier, count):
         yield L.gen_scenario(rng, rejecting=True)
 
 
+gen_tables = L.gen_tables
 run_impl = L.run_impl
 oracle = L.oracle
 tags = L.tags
